@@ -76,6 +76,17 @@
       over ANY input sequence in which every boundary tick sees a quorum recently
       active and no message carries an adoptable higher term, the leader keeps role,
       term and leader id.
+   7. Window theorem, single majority member (lease_maintained of DESIGN.md and its
+      use).  C16_follower_leader_msg: a MsgHeartbeat / MsgAppend of the current term on
+      a Follower clears the election timer and records the sender as leader; besides
+      that only log and outbox change.  C16_follower_lease_window: a Follower with
+      check_quorum and a known leader whose inputs are [on_schedule] — ticks that keep
+      the timer below election_timeout (boundary ticks included: e + 1 < timeout is
+      required of every tick), heartbeats/appends of its term from its leader, and
+      ANY higher-term non-transfer MsgRequestVote / MsgRequestPreVote at any point —
+      stays Follower with the same term, vote and leader and inside the lease
+      throughout (invariant [lease_inv]); needs election_timeout <= randomized
+      timeout (what Config::validate + reset guarantee; hypothesis here).
 
    NOT PROVED (listed honestly).
    * The cluster-level clause ("while a leader and a majority exchange heartbeats on
@@ -87,9 +98,10 @@
      a quorum, which intersects the majority, whose members are in the lease and drop
      the request (clause 0/4) — the per-node halves of that argument are proved here,
      the composition is not; (iii) "heartbeats on schedule => check_quorum_active at
-     each boundary and election_elapsed < election_timeout on every follower"
-     (lease_maintained of DESIGN.md) is not proved; leader_window takes the former as
-     a hypothesis on the states met.  Note also what the per-node theorems show the
+     each boundary" is not proved (it needs the followers' responses to arrive, i.e.
+     the cluster model); leader_window takes it as a hypothesis on the states met.
+     The follower half (election_elapsed < election_timeout throughout) IS proved:
+     clause 7.  Note also what the per-node theorems show the
      clause must except: a node outside the lease that is at a higher REAL term
      (e.g. a restarted node that campaigned without pre-vote, or a MsgAppendResponse
      from a node with a higher term) does make the leader adopt that term
@@ -689,3 +701,65 @@ Example C16_leader_stepdown_example :
   exists r', run xs_leader (repeat ITick 20) = Ok r' /\ r_state r' = Follower /\ r_term r' = 2.
 Proof. exact xs_leader_stepdown. Qed.
 Print Assumptions C16_leader_stepdown_example.
+
+
+(* ================================================================== *)
+(* 7. a majority member inside the lease *)
+
+Theorem C16_def_on_schedule : forall t l et e ins,
+  on_schedule t l et e ins <->
+  match ins with
+  | [] => True
+  | ITick :: rest => e + 1 < et /\ on_schedule t l et (e + 1) rest
+  | IStep m :: rest =>
+      ((m_type m = MsgHeartbeat \/ m_type m = MsgAppend) /\ m_term m = t /\ m_from m = l /\
+       on_schedule t l et 0 rest) \/
+      ((m_type m = MsgRequestVote \/ m_type m = MsgRequestPreVote) /\ t < m_term m /\
+       list_eqb (m_context m) CAMPAIGN_TRANSFER = false /\ on_schedule t l et e rest)
+  end.
+Proof. exact def_on_schedule. Qed.
+Print Assumptions C16_def_on_schedule.
+
+Theorem C16_def_lease_inv : forall r0 r,
+  lease_inv r0 r <->
+  r_state r = Follower /\ r_term r = r_term r0 /\ r_vote r = r_vote r0 /\
+  r_leader_id r = r_leader_id r0 /\ r_check_quorum r = true /\
+  r_election_timeout r = r_election_timeout r0 /\
+  r_randomized_election_timeout r = r_randomized_election_timeout r0 /\
+  r_election_elapsed r < r_election_timeout r.
+Proof. exact def_lease_inv. Qed.
+Print Assumptions C16_def_lease_inv.
+
+Theorem C16_follower_leader_msg :
+  forall r m r' c,
+    r_state r = Follower -> (m_type m = MsgHeartbeat \/ m_type m = MsgAppend) ->
+    m_term m = r_term r -> step r m = Ok (r', c) ->
+    only_msgs_log (r <| r_election_elapsed := 0 |> <| r_leader_id := m_from m |>) r'.
+Proof. exact follower_leader_msg. Qed.
+Print Assumptions C16_follower_leader_msg.
+
+Theorem C16_tick_waits :
+  forall r, r_state r <> Leader -> r_election_elapsed r + 1 < r_randomized_election_timeout r ->
+    tick r = Ok (r <| r_election_elapsed := r_election_elapsed r + 1 |>, false).
+Proof. exact tick_waits. Qed.
+Print Assumptions C16_tick_waits.
+
+Theorem C16_follower_lease_window :
+  forall ins r0 r r',
+    r_leader_id r0 <> INVALID_ID ->
+    r_election_timeout r0 <= r_randomized_election_timeout r0 ->
+    lease_inv r0 r ->
+    on_schedule (r_term r0) (r_leader_id r0) (r_election_timeout r0) (r_election_elapsed r) ins ->
+    run r ins = Ok r' -> lease_inv r0 r'.
+Proof. exact follower_lease_window. Qed.
+Print Assumptions C16_follower_lease_window.
+
+(* 7: node 3: nine ticks, a pre-vote request of term 3, a heartbeat of its leader, a vote
+   request of term 5, nine more ticks: on schedule, and the run does not panic *)
+Example C16_on_schedule_example :
+  lease_inv xs_follower xs_follower /\
+  on_schedule (r_term xs_follower) (r_leader_id xs_follower) (r_election_timeout xs_follower)
+              (r_election_elapsed xs_follower) xs_schedule /\
+  exists r', run xs_follower xs_schedule = Ok r' /\ r_election_elapsed r' = 9 /\ r_term r' = 2.
+Proof. exact xs_on_schedule. Qed.
+Print Assumptions C16_on_schedule_example.
